@@ -222,6 +222,8 @@ package headers
 //@ pure func tooDeep(r *Repository, b *Branch, ph int, prev bitcoin.Hash32) bool = last(*b).Hash != prev && tipH(*r.longest) - ph > r.config.MaxBranchDepth
 
 //@ func (*Repository).ProcessHeader
+// one return is dead code under the contract: "Failed to add header to branch" (Add cannot fail after the checks)
+//@   deadreturns 1
 //@   requires repoInv(repo) && header != nil
 //@   requires subsOK(repo)
 //@   let hash = hashOf(header)
@@ -373,6 +375,9 @@ package headers
 //@   requires forall(i, 0, len(*bs), tipOK((*bs)[i]) && slotsOK((*bs)[i]) && (*bs)[i].heightsMap != nil) && tipOK(branch) && slotsOK(branch)
 //@   ensures [C17.branch-gone] result == nil && height == old(branch.parentHeight) + 1 ==> forall(i, 0, len(*bs), (*bs)[i] != branch)
 //@   ensures [C17.children-gone] result == nil ==> forall(i, 0, len(*bs), (*bs)[i] != nil && !((*bs)[i].parent == branch && (*bs)[i].parentHeight >= height))
+// What is not built on the trimmed part stays: a branch that forks off the trimmed branch below the trim height is
+// kept (stated for a root branch, where the trimmed branch itself can never land in the removed list).
+//@   ensures [C17.forks-below-kept] result == nil && old(branch.parent) == nil && height != old(branch.parentHeight) + 1 ==> forall(i, 0, old(len(*bs)), old((*bs)[i]).parent == branch && old((*bs)[i]).parentHeight < height ==> exists(j, 0, len(*bs), (*bs)[j] == old((*bs)[i])))
 //@   ensures [C17.no-longer] result == nil ==> len(*bs) <= old(len(*bs))
 //@   ensures [C17.tips-ok] result == nil ==> forall(i, 0, len(*bs), tipOK((*bs)[i]) && (*bs)[i].heightsMap != nil)
 //@   ensures [C17.slots-ok] result == nil ==> forall(i, 0, len(*bs), slotsOK((*bs)[i]))
@@ -394,6 +399,8 @@ package headers
 //@     invariant forall(i, 0, len(newBranches), newBranches[i] != nil && !(newBranches[i].parent == branch && newBranches[i].parentHeight >= height) && (height == branch.parentHeight + 1 ==> newBranches[i] != branch))
 //@     invariant rangeindex >= 0 && atentry(*bs)[0].parent == nil ==> len(newBranches) > 0 && newBranches[0] == atentry(*bs)[0]
 //@     invariant forall(o, 0, len(removedBranches), removedBranches[o] != nil)
+//@     invariant forall(o, 0, len(removedBranches), branch.parent == nil ==> removedBranches[o] != branch)
+//@     invariant forall(k, 0, rangeindex+1, branch.parent == nil && atentry(*bs)[k].parent == branch && atentry(*bs)[k].parentHeight < height ==> exists(i, 0, len(newBranches), newBranches[i] == atentry(*bs)[k]))
 //@     invariant forall(i, 0, len(newBranches), tipOK(newBranches[i]) && newBranches[i].heightsMap != nil)
 //@     invariant forall(i, 0, len(newBranches), slotsOK(newBranches[i]))
 //@     invariant forall(i, 0, len(newBranches), forall(j, rangeindex+1, len(atentry(*bs)), newBranches[i] != atentry(*bs)[j] && arr(newBranches[i].headers) != arr(atentry(*bs)[j].headers)))
